@@ -438,8 +438,11 @@ impl TryFrom<&mut Peekable<Lexer>> for ParserNode {
                         }
                         Type::JumpLinkR(inst) => {
                             let reg1 = lex.get_reg()?;
-                            let next = lex.get_any()?;
+                            // The token after the first register belongs to the
+                            // instruction only when it is an operand
+                            let next = lex.peek_any()?;
                             return if let Ok(rs1) = next.as_reg() {
+                                lex.get_any()?;
                                 let imm = lex.get_imm()?;
                                 Ok(ParserNode::new_jump_link_r(
                                     With::new(inst, next_node),
@@ -449,6 +452,7 @@ impl TryFrom<&mut Peekable<Lexer>> for ParserNode {
                                     lex.raw_token,
                                 ))
                             } else if let Ok(imm) = next.as_imm() {
+                                lex.get_any()?;
                                 if let Ok(()) = lex.peek_any()?.as_lparen() {
                                     lex.get_any()?;
                                     let rs1 = lex.get_reg()?;
@@ -470,6 +474,7 @@ impl TryFrom<&mut Peekable<Lexer>> for ParserNode {
                                     ))
                                 }
                             } else if let Ok(()) = next.as_lparen() {
+                                lex.get_any()?;
                                 let rs1 = lex.get_reg()?;
                                 lex.expect_rparen()?;
                                 Ok(ParserNode::new_jump_link_r(
